@@ -124,6 +124,9 @@ pub enum Step {
     Last,
     Fold,
     RevCollect,
+    /// consume the rest with `skip(k)` / `step_by(k + 1)` and collect (drains and owning iterators)
+    Skip(u8),
+    StepBy(u8),
 }
 
 #[derive(Debug, Clone, Copy, PartialEq, Eq, Hash, Serialize, Deserialize)]
@@ -401,6 +404,8 @@ pub fn render_steps(st: &[Step]) -> String {
             Step::Last => "last".to_string(),
             Step::Fold => "fold".to_string(),
             Step::RevCollect => "rev".to_string(),
+            Step::Skip(k) => format!("skip({k})"),
+            Step::StepBy(k) => format!("step_by({})", *k as usize + 1),
         })
         .collect::<Vec<_>>()
         .join(",")
